@@ -3,8 +3,10 @@
 manifest stays valid and current as checks are added)."""
 import json, subprocess
 props=[json.loads(l) for l in open('/verif/properties.jsonl')]
-hooks_commit=subprocess.run(['git','-C','/repo','log','--format=%h','--grep=verif hooks','-1'],capture_output=True,text=True).stdout.strip()
+hooks_commits=subprocess.run(['git','-C','/repo','log','--format=%h','--reverse','--grep=^verif hooks'],capture_output=True,text=True).stdout.split()
 C={
+ "C11":("model_checking","exhaustive interleaving exploration (controlled scheduler, all lock hand-offs) of a full scan against 1-2 writer threads incl. index splits and Compact + bounded exhaustive operation-sequence enumeration for the quiescent clauses; truthful/complete/exactly-once oracles",
+        "writer programs <= 2 ops; iterator Next calls that only pop an already fetched item are not scheduling points (argued partial-order reduction, DESIGN.md C11); depth bound for the quiescent part as reported"),
  "C05":("model_checking","exhaustive interleaving exploration (controlled scheduler over a sync shim, all lock hand-offs) of Compact with concurrent writers/readers x exhaustive process-crash image enumeration of every interleaved execution; WGL linearizability + acked-state oracles",
         "2-3 threads, writer programs <= 2 ops; scheduling points at sync operations; process-crash model of C03; time-sliced scenarios report the completed preemption bound"),
  "C07":("model_checking","exhaustive interleaving exploration (controlled scheduler over a sync shim, unbounded preemptions) of 3-4 thread workloads on colliding keys; every history checked by a Wing-Gong-Lowe linearizability search against the map model",
@@ -33,7 +35,7 @@ m={
  "hooks":{"guard":"verif",
    "enable":"tools/build.sh: go build -tags verif -overlay <generated>; verif-tagged files in /repo (verif_export.go, internal/hash/seed_verif_on.go, fs/verif_on.go) plus an overlay that maps /verif/harness into the module as zzverif/... and swaps the sync import of copies of the pogreb sources for the scheduler shim",
    "baseline_off_cmd":"cd /repo && GOFLAGS=-mod=mod GOPROXY=off GOSUMDB=off GOTOOLCHAIN=local go test -vet=off -count=1 ./...",
-   "source_commits":[hooks_commit],"add_only":True},
+   "source_commits":hooks_commits,"add_only":True},
  "engines":[{"name":"pogverif","path":"harness/cmd/pogverif","serves_properties":claimed,
    "kind_free_text":"hand-written stateless explorer on the real implementation: sequence enumerator from engineered base states, process-crash / power-loss image enumerators over a logging file system (simfs), cooperative scheduler + DFS over a sync shim (vsync), independent format decoder, map model"}],
  "checks":[], "not_applicable":[],
